@@ -247,12 +247,13 @@ def load_known():
 
 
 def write_evidence(pid, tier, seed, level, coverage, assumptions, wall, violations, extra=None):
-    os.makedirs(EVID, exist_ok=True)
+    evid = EVID if pid.startswith("C") else EVID + "-extra"    # extensions beyond the listed properties
+    os.makedirs(evid, exist_ok=True)
     ev = {"property_id": pid, "tier": tier, "seed": seed, "level": level, "coverage": coverage,
           "assumptions": assumptions, "wall_s": round(wall, 2), "violations": violations}
     if extra:
         ev.update(extra)
-    with open(os.path.join(EVID, pid + ".json"), "w") as f:
+    with open(os.path.join(evid, pid + ".json"), "w") as f:
         json.dump(ev, f, indent=1, sort_keys=True)
         f.write("\n")
 
